@@ -614,7 +614,57 @@ func helperMonitors(ctx context.Context, inner state.CoreState, gate *gateState,
 			}
 		}
 
-		// C03: Teardown reports ready-to-destroy only if the finalizer set was empty when the teardown took effect
+		// C03: a Teardown that reports ready-to-destroy must have seen, at some point between its first and its last store
+		// call, the resource tearing down with an empty finalizer set (whoever did the marking)
+		if c.Kind == "teardown" && r.coq == "(OrReady true)" {
+			var (
+				cur       resource.Resource
+				first     = -1
+				last      = -1
+				sawReady  bool
+				readyHere = func() bool {
+					return cur != nil && cur.Metadata().Phase() == resource.PhaseTearingDown && cur.Metadata().Finalizers().Empty()
+				}
+			)
+
+			for j, e := range log {
+				if e.Tid == i {
+					if first < 0 {
+						first = j
+					}
+
+					last = j
+				}
+			}
+
+			for j, e := range log {
+				if j == first {
+					sawReady = sawReady || readyHere() // the state its first read can see
+				}
+
+				if e.Err == nil {
+					switch e.Kind {
+					case "create", "update":
+						if e.Res.Metadata().ID() == c.ID {
+							cur = e.Res
+						}
+					case "destroy":
+						if e.Ptr != nil && e.Ptr.ID() == c.ID {
+							cur = nil
+						}
+					}
+				}
+
+				if first >= 0 && j >= first && j <= last {
+					sawReady = sawReady || readyHere()
+				}
+			}
+
+			if first >= 0 && !sawReady {
+				problems = append(problems, fmt.Sprintf("ready-never-true: Teardown call %d reported ready, but at no point during the call was the resource tearing down with an empty finalizer set", i))
+			}
+		}
+
 		if c.Kind == "teardown" && r.coq == "(OrReady true)" {
 			for _, e := range log {
 				if e.Tid == i && e.Err == nil && e.Kind == "update" && !e.Res.Metadata().Finalizers().Empty() {
